@@ -160,6 +160,7 @@ func (x *executor) mapOrder() {
 						}
 						f.Set(m)
 						x.res.Counters["map_insertion_orders"]++
+						x.curSize = len(order)
 						replay := map[string]interface{}{"phase": "map-order", "type": r.Name, "keys_in_insertion_order": order, "with_deleted_foreign_key": variant == 1}
 						// several encodings of the same object: the Go runtime starts every map iteration at a random position
 						for rep := 0; rep < 4; rep++ {
